@@ -1,8 +1,8 @@
 CONSTANTS
-  EmptyYields = FALSE
+  EmptyYields = TRUE
   PinnedEnv = FALSE
   Accumulate = FALSE
-  PinnedVars = TRUE
+  PinnedVars = FALSE
 INIT Init
 NEXT Next
 INVARIANT ImplEqualsResolve
